@@ -152,6 +152,12 @@ func setup() {
 		mk("sm2/btc-address", "sm2", 5, types.SM2, false)
 		mk("secp256k1/bad-signature", "secp256k1", 6, types.SECP256K1, true)
 		mk("secp256k1/unknown-sign-type", "secp256k1", 7, 0x0ff0, false)
+		// transactions that carry no signature at all / an empty one (their own
+		// answer is "invalid"; what matters is that checking them leaves nothing behind)
+		mk("no-signature", "secp256k1", 8, types.SECP256K1, false)
+		txs[len(txs)-1].tx.Signature = nil
+		mk("empty-signature-bytes", "secp256k1", 9, types.SECP256K1, false)
+		txs[len(txs)-1].tx.Signature.Signature = nil
 	})
 }
 
@@ -340,8 +346,10 @@ func (c19) Generate(prop string, r *simrt.RNG, tier string, run int) *simrt.Scen
 				idx = r.Intn(naddr)
 			case "pk2a":
 				idx = r.Intn(3)*3 + r.Intn(3) // pubkey x address id
-			case "from", "sign":
+			case "from":
 				idx = r.Intn(7)
+			case "sign":
+				idx = r.Intn(9)
 			case "exad", "gexa":
 				idx = r.Intn(len(execNames))*3 + r.Intn(3)
 			case "load":
